@@ -35,8 +35,9 @@ Required(s, i) ==
 Init == /\ l = 1 /\ t = [ln |-> 0] /\ exp = <<>> /\ nonce = <<>> /\ lde = 0 /\ role = "" /\ absorbed = 0 /\ k = 0
         /\ pdraws = <<>> /\ pints = <<>> /\ vdone = FALSE /\ grindOK = FALSE
 
+\* the statement as instantiated by the harness (Stark.tla, Effective)
 Begin == /\ E.ev = "begin"
-         /\ t' = E.t /\ exp' = E.expected /\ nonce' = E.nonce /\ lde' = E.lde
+         /\ t' = Effective(E.t) /\ exp' = E.expected /\ nonce' = E.nonce /\ lde' = E.lde
          /\ Len(E.expected) = NumMsgs(E.t)                       \* layer count of the model = commitments in the proof
          /\ E.lde = Lde(E.t)
          /\ E.unique >= 1 /\ E.unique <= E.t.q
